@@ -14,7 +14,7 @@ import (
 func init() {
 	register(&Property{
 		ID:          "C03",
-		Explanation: "R3: js_ast.KnownPrimitiveType, MergedKnownPrimitiveTypes and CanChangeStrictToLoose touch their inputs only through type tests, operator comparisons and comparisons of recursive answers with constants, so their behaviour is a finite table; it is extracted from the SSA form by forking on every such test (no execution) and each row (node kind, operator, answers for the operands) must over-approximate the set of run-time types ECMAScript gives the expression; an unsound row (e.g. -x typed 'number' when x may be a bigint) silently licenses === to ==, Number(x) to x and removal of relational operators. Also decides one clause of 'minification never changes behaviour' that is visible in the code's shape: every arithmetic/relational expression esbuild evaluates at compile time is computed by the Go operation whose IEEE-754/int32 semantics equal the ECMAScript operator. R1 for each operator case of js_ast.FoldBinaryOperator the folded value must be exactly the expression the embedded ECMAScript table prescribes (operator, operand order, ToInt32/ToUint32 conversions, the &31 shift mask, UCS-2 string comparison, jsPow for **), and ToInt32/jsPow must keep their guard shape (exact fast path, NaN/Inf → 0, mod 2^32; NaN exponent and |base|=1 with infinite exponent → NaN); R2 every float→integer conversion and every math.Pow/ParseFloat applied to a number that may come from the program is guarded or goes through one of the reviewed wrappers. R8 coercion-tables: complete behaviour tables of ToBooleanWithSideEffects / ToNullOrUndefinedWithSideEffects / TypeofWithoutSideEffects against a three-valued ECMAScript reference (truthiness, nullishness, typeof, side-effect freedom). R9 integer-test-operators: the rewrite licensed by isInt32OrUint32 is applied only under ==, ===, !=, !==. R10 known-function-defaults: IsEmptyFunction / IsIdentityFunction markings are control dependent on a nil test of Arg.DefaultOrNil. R11 flag-equality: HasSameFlagsAs compares every boolean / enumeration field through both operands. R12 substitution-judges-table: the bool-valued module helpers called by substituteSingleUseSymbolInExpr are in the reviewed table. NOT covered: all tree rewrites (MangleIfExpr, mangleStmts, inlining, dead-code removal), side-effect ordering, string↔number coercion tables.",
+		Explanation: "R3: js_ast.KnownPrimitiveType, MergedKnownPrimitiveTypes and CanChangeStrictToLoose touch their inputs only through type tests, operator comparisons and comparisons of recursive answers with constants, so their behaviour is a finite table; it is extracted from the SSA form by forking on every such test (no execution) and each row (node kind, operator, answers for the operands) must over-approximate the set of run-time types ECMAScript gives the expression; an unsound row (e.g. -x typed 'number' when x may be a bigint) silently licenses === to ==, Number(x) to x and removal of relational operators. Also decides one clause of 'minification never changes behaviour' that is visible in the code's shape: every arithmetic/relational expression esbuild evaluates at compile time is computed by the Go operation whose IEEE-754/int32 semantics equal the ECMAScript operator. R1 for each operator case of js_ast.FoldBinaryOperator the folded value must be exactly the expression the embedded ECMAScript table prescribes (operator, operand order, ToInt32/ToUint32 conversions, the &31 shift mask, UCS-2 string comparison, jsPow for **), and ToInt32/jsPow must keep their guard shape (exact fast path, NaN/Inf → 0, mod 2^32; NaN exponent and |base|=1 with infinite exponent → NaN); R2 every float→integer conversion and every math.Pow/ParseFloat applied to a number that may come from the program is guarded or goes through one of the reviewed wrappers. R8 coercion-tables: complete behaviour tables of ToBooleanWithSideEffects / ToNullOrUndefinedWithSideEffects / TypeofWithoutSideEffects against a three-valued ECMAScript reference (truthiness, nullishness, typeof, side-effect freedom). R9 integer-test-operators: the rewrite licensed by isInt32OrUint32 is applied only under ==, ===, !=, !==. R10 known-function-defaults: IsEmptyFunction / IsIdentityFunction markings are control dependent on a nil test of Arg.DefaultOrNil. R11 flag-equality: HasSameFlagsAs compares every boolean / enumeration field through both operands. R12 substitution-judges-table: the bool-valued module helpers called by substituteSingleUseSymbolInExpr are in the reviewed table. R13 else-presence-as-printed (the C13/R13 analysis). R14 substitution-stops-at-object-spread. R15 substitution-stops-at-template-tostring (known finding). R16 switch-search-stops-at-unknown-equality: the unknown edge of the CheckEqualityIfNoSideEffects result leaves the search loop. NOT covered: all tree rewrites (MangleIfExpr, mangleStmts, inlining, dead-code removal), side-effect ordering, string↔number coercion tables.",
 		Run: func(p *Prog, tier string) []*RuleResult {
 			return []*RuleResult{c03FoldTable(p), c03NumberHazards(p), c03PrimitiveTransfer(p), c03UnusedOperandCoverage(p), c03LivenessClass(p), c03MergedFunctionSymbols(p), c03LateFoldGuard(p), c03Coercion(p), c03IntegerTestOps(p), c03KnownFunctionDefaults(p), c03FlagEquality(p), c03SubstitutionJudges_(p), elsePresenceAsPrinted(p, "C03/R13 else-presence-as-printed"), c03SubstitutionStopsAtSpread(p), c03SubstitutionStopsAtTemplatePart(p), c03SwitchSearchUnknown(p)}
 		},
